@@ -340,7 +340,19 @@ def r15_3(ctx: Ctx, rep: Report) -> None:
                 break
             if first_seq:
                 r = deep_resolve(p.ret, p.env) if p.ret is not None else None
-                ok = isinstance(r, ast.Compare) and len(r.ops) == 1 and isinstance(r.ops[0], ast.Lt) and (chain(r.left) or [""])[0] == "self" and (chain(r.left) or [""])[-1].lstrip("_") == "sequence" and (chain(r.comparators[0]) or [""])[0] == other and (chain(r.comparators[0]) or [""])[-1].lstrip("_") == "sequence"
+
+                def own_number(e: ast.AST, who: str) -> bool:
+                    # `<who>.sequence`, or `<who>.sequence or <a number taken from <who>'s members>` (a block that has no
+                    # number of its own is ordered by its first member's)
+                    if isinstance(e, ast.BoolOp) and isinstance(e.op, ast.Or) and len(e.values) == 2:
+                        rest = e.values[1]
+                        if not (any(isinstance(z, ast.Attribute) and z.attr.lstrip("_") == "sequence" for z in ast.walk(rest)) and (chain(rest if not isinstance(rest, ast.IfExp) else rest.body) or [who])[0] == who):
+                            return False
+                        e = e.values[0]
+                    c_ = chain(e) or [""]
+                    return c_[0] == who and c_[-1].lstrip("_") == "sequence"
+
+                ok = isinstance(r, ast.Compare) and len(r.ops) == 1 and isinstance(r.ops[0], ast.Lt) and own_number(r.left, "self") and own_number(r.comparators[0], other)
                 if not ok:
                     bad = (f"with different sequence numbers the result is `{snippet(p.ret) if p.ret is not None else None}`, not self.sequence < other.sequence", p)
                     break
@@ -354,6 +366,7 @@ def r15_3(ctx: Ctx, rep: Report) -> None:
     r03_3(ctx, rep, pairs=SIBLINGS[2:], rid="R15.3")
     steps_agree(ctx, rep)
     block_tie_is_numeric(ctx, rep)
+    unnumbered_block_is_not_zero(ctx, rep)
 
 
 def block_tie_is_numeric(ctx: Ctx, rep: Report, rid: str = "R15.17") -> None:
@@ -387,6 +400,50 @@ def block_tie_is_numeric(ctx: Ctx, rep: Report, rid: str = "R15.17") -> None:
                 rep.note(f"{rid} {snippet(r, 60)}: neither a text comparison nor a comparison of members - not judged")
     if n == 0:
         rep.note(f"{rid} no comparison of two blocks recognised in AceGroup.__lt__ - not judged")
+
+
+def unnumbered_block_is_not_zero(ctx: Ctx, rep: Report, rid: str = "R15.18") -> None:
+    """A block that `group()` has just made has no number of its own (0), the blocks it rebuilt keep theirs (R16.23): where
+    `AceGroup.__lt__` orders two BLOCKS whose own numbers differ, a missing number is replaced by the number of the block's
+    first member - compared raw, the new block (0) sorts in front of every numbered block although its lines carry the
+    highest numbers."""
+    rep.rule(rid)
+    f = ctx.prog.find_func("AceGroup.__lt__")
+    if f is None:
+        rep.note(f"{rid} AceGroup.__lt__ not present")
+        return
+    other = f.params[1] if len(f.params) > 1 else "other"
+    n = 0
+    for p in function_paths(ctx.cfg(f)):
+        if p.raises or p.ret is None:
+            continue
+        verdicts = set()
+        not_block = False
+        for t, truth in p.atoms:
+            if isinstance(t, ast.Compare) and len(t.ops) == 1 and isinstance(t.ops[0], (ast.Eq, ast.NotEq)):
+                cl, cr = chain(t.left), chain(t.comparators[0])
+                if cl and cr and cl[-1].lstrip("_") == cr[-1].lstrip("_") == "sequence":
+                    verdicts.add(truth == isinstance(t.ops[0], ast.NotEq))
+            if isinstance(t, ast.Call) and src(t.func) == "isinstance" and len(t.args) == 2 and src(t.args[0]) == other and "AceGroup" in src(t.args[1]) and not truth:
+                not_block = True
+        if verdicts == {True, False}:
+            continue  # the numbers both differ and are equal: not a path
+        differ = verdicts == {True}
+        if not differ or not_block:
+            continue
+        r = deep_resolve(p.ret, p.env)
+        if not (isinstance(r, ast.Compare) and len(r.ops) == 1):
+            continue
+        n += 1
+        rep.instance()
+        sides = [r.left, r.comparators[0]]
+        raw = [e for e in sides if (chain(e) or [""])[-1].lstrip("_") == "sequence" and not isinstance(e, ast.BoolOp)]
+        if len(raw) == 2:
+            rep.violation(f.qualname, snippet(p.ret, 50), "two blocks whose own numbers differ are ordered by those numbers as they are, and a block that group() has just made has 0: after `resequence(); group(); sort()` the new block moves in front of the rebuilt, numbered blocks although its lines carry the highest numbers", where(f), inp="acl = Acl(text, group_by='=== '); acl.extend([Remark('remark === C'), Ace('permit ip any any')]); acl.resequence(); acl.group('=== '); acl.sort()")
+            break
+        rep.ok(f"{f.qualname}: {snippet(p.ret, 50)}", "a block without own number is ordered by the number of its first member", where=where(f))
+    if n == 0:
+        rep.note(f"{rid} no path of AceGroup.__lt__ that orders two blocks with different numbers - not judged")
 
 
 def steps_agree(ctx: Ctx, rep: Report, rid: str = "R15.16") -> None:
